@@ -30,7 +30,7 @@ class Contract:
                  lets=None, yields=None, variants=None, prop=None, defs=None, instantiate=None,
                  raises_only_if=None, replay=None, setup=None, pure=False, callee_contracts=None,
                  ghost_after=None, ghost_entry=None, enclosing=None, instantiate_entry=None,
-                 instantiate_call=None, lemmas=None, uses=None, blocks=None, decreases=None, ghost_exit=None, local_ensures=None, forget=None, doc=''):
+                 instantiate_call=None, lemmas=None, uses=None, blocks=None, decreases=None, ghost_exit=None, local_ensures=None, forget=None, guarded=None, doc=''):
         self.qualname = qualname
         self.params = dict(params or {})
         self.requires = _labelled(requires, 'pre')
@@ -68,6 +68,8 @@ class Contract:
         # proof structuring: at a call of <callee> keep only these (tagged) quantified hypotheses; the callee's
         # postcondition re-establishes what is needed afterwards (hypotheses are only dropped: sound)
         self.forget = dict(forget or {})
+        # lock discipline (guarded-by): field of `self` -> clause that must hold whenever the body reads or writes it
+        self.guarded = dict(guarded or {})
         self.ghost_exit = list(ghost_exit or [])   # [(object expr, ghost field, value expr)]: ghost assignments on normal return
         self.decreases = decreases         # termination measure of a recursive function (Int expression over the parameters)
         self.enclosing = enclosing    # params of the enclosing function: its body is run to bind the closure
